@@ -2,23 +2,17 @@
 # bindings create sessions), which the TCB model of C03a/b leaves out.  The coordinator merges PART into
 # checks/C03.py (props / extract appended, stage appended; theorems are "auto" there).
 #
-# On the unchanged tree the stage reports two classes through Oracle::Known (class names below); they are
-# genuine deviations of the code, not recorded in known_findings.json at the time of writing:
-#   closed_reply_ack_ignores_syn_fin        tcp.rs:154-158 passes the text length to segment_arrives_closed,
-#                                           so the reset for a SYN/FIN to a closed port acknowledges SEG.SEQ
-#                                           instead of SEG.SEQ+SEG.LEN (RFC 9293 3.10.7.1); the active opener
-#                                           drops that reset (3.10.7.3) and never learns of the refusal
-#   tcp_demux_listen_lookup_self_deadlock   tcp.rs:144-151: `listen_bindings.entry(exact)` is still alive (vacant
-#                                           entry = shard write lock) when `listen_bindings.entry(wildcard)` is
-#                                           called; same shard => the thread blocks for ever
-# Both are modelled as coded (C03c_closed_reply_syn_refuted, C03c_lookup_deadlock_refuted), so the validator
-# ACCEPTs those traces; only the property oracle flags them.
+# History: on the tree before b7a73ede / ba8dc528 this kit found (a) the self-deadlock of Tcp::demux (second
+# `listen_bindings.entry` on a shard whose write lock the vacant entry of the exact key still held) and (b) the
+# closed-port reset acknowledging SEG.SEQ + text length without SYN/FIN.  Both are repaired; the model follows the
+# repaired code, the old behaviour survives only in C03c_lookup_deadlock_orig_refuted / C03c_closed_reply_orig_refuted,
+# and the oracle now FAILS on any hang and on any reset that is not the one of RFC 9293 3.10.7.1.
 
 THEOREMS = [
     "C03c_existing_session", "C03c_sessions_unique", "C03c_demux_effect", "C03c_syn_creates_one",
     "C03c_later_segments", "C03c_exact_wins", "C03c_no_binding", "C03c_rst_ack_never_create",
     "C03c_open_existing_refused", "C03c_sessions_never_removed", "C03c_listen_overwrites",
-    "C03c_closed_reply_rfc_partial", "C03c_closed_reply_syn_refuted", "C03c_lookup_deadlock_refuted",
+    "C03c_closed_reply_rfc", "C03c_closed_reply_orig_refuted", "C03c_lookup_deadlock_orig_refuted",
     "C03c_validate_sound", "C03c_step_frame", "C03c_step_arrival", "C03c_step_app", "C03c_examples",
 ]
 
@@ -46,15 +40,18 @@ PART = {
             "from {0, 2^31-1, 2^32-1, random}) from spoofed or real source endpoints to bound endpoints, to ports bound "
             "only by the wildcard on arbitrary addresses, to unbound ports of accepted addresses, to addresses the "
             "machine does not accept, and to pairs that already have a session (later segments, forged answers to "
-            "clients); 20% of the steps without a settle phase (bursts). Ports are drawn so that no scenario address "
-            "shares a DashMap shard with the wildcard key (asked of a real FxDashMap<Endpoint,_> in the process); 4% of "
-            "the cases add a deliberate probe of that collision (a SYN to 0.0.0.0:unbound or to a colliding "
-            "address/port found by search). 92% on the paused current-thread runtime (deterministic, exact event "
+            "clients); 20% of the steps without a settle phase (bursts); 40% of the cases start with a built constellation "
+            "(exact and wildcard binding of one port by two applications, two spoofed SYNs from one address, real clients to "
+            "the exact endpoint and to another address of the machine, each sending bytes; or an exact binding plus a SYN "
+            "to another accepted address with the bound port). Ports are unrestricted; 8% of the cases add a probe of the "
+            "old lock collision (a SYN to 0.0.0.0:unbound, or to an address/port pair that shares a DashMap shard with the "
+            "wildcard key, found by asking a real FxDashMap<Endpoint,_> in the process), which must be processed like any "
+            "other segment. 92% on the paused current-thread runtime (deterministic, exact event "
             "order), 8% on the multi-thread runtime (repeated up to twice before a failure is reported). distinct = "
             "distinct case line; non-trivial = the child did not crash",
     "trusted_base": [
         "Coq 8.16.1 kernel (coqc; vm_compute only in the closed example/refutation computations)",
-        "hand transcription of tcp.rs (open, listen, demux incl. its lock order), the three-way result of "
+        "hand transcription of tcp.rs (open, listen, demux), the three-way result of "
         "tcb.rs segment_arrives_listen and the reply of segment_arrives_closed, Ipv4::listen / the Ipv4::demux lookup "
         "-> Model/TcpDemux.v (on top of Model/Demux.v of C04), checked by trace validation on sampled scenarios",
         "segments are records in the model (header bytes / checksums: C08, C18); what a session does with a segment "
@@ -62,8 +59,6 @@ PART = {
         "as they come",
         "extraction (ExtrOcamlBasic only) + OCaml driver ocaml/tcpdemux_drv.ml + Rust harness c03_tcpdemux (own link "
         "observer reading the frames byte by byte, events printed as they happen so that a hung child leaves its trace)",
-        "the shard-collision bit of every arrival is measured in the child on a real FxDashMap<Endpoint,()> "
-        "(entry + try_entry) and is an input of the model",
         "harness/src/stack.rs child-process scaffolding; the elvis-core `verif` link observer",
     ],
     "assumptions": [
@@ -72,10 +67,9 @@ PART = {
         "and a failing run is repeated",
         "no ARP on the machines (Tcp::open holds the session-table entry across the await of Ipv4::open_and_listen; "
         "with ARP that await suspends while a shard of the session table is locked - not exercised)",
-        "a hang is attributed to the lookup deadlock only when the last recorded arrival has no session, no exact "
-        "binding and a measured shard collision; any other hang or crash fails the oracle (e.g. the LAND segment, "
-        "source endpoint = destination endpoint, makes the created session exchange ACKs with itself for ever at one "
-        "virtual instant; the generator avoids it)",
+        "any hang or crash of the child fails the oracle; the generator avoids the LAND segment (source endpoint = "
+        "destination endpoint), which makes the created session exchange ACKs with itself for ever at one virtual "
+        "instant (TCB behaviour, outside this part)",
         "the oracle requires a SYN-ACK (ACK = SEG.SEQ+1, one initial sequence number per pair) from a session created "
         "by a SYN only if no further segment of the pair reached it; NewConnection / bytes must go to the application "
         "that owned the binding when the session was created, at most one NewConnection per pair",
